@@ -1464,6 +1464,9 @@ func replayDisp(s *oset, o *vh.Out, workdir string) {
 
 func main() {
 	f := vh.ParseFlags()
+	if abs, err := filepath.Abs(f.Out); err == nil {
+		f.Out = abs
+	}
 	o := vh.NewOut(f.Out)
 	defer o.Close()
 	selfCheck()
